@@ -147,6 +147,8 @@ def r3(ctx, F, rule, sfx):
     if kf is None:
         raise AnalysisIncomplete('radius formula undetermined')
     ctx.check(rule, 'termination-factor' + sfx, ab * kf[0] >= 2, 'stops when |L-R| > %s * (max vertex distance)' % (ab * kf[0]), 'factor >= 2 (security radius theorem)', w, key_extra='factor')
+    # the radius the test reads is current: re-established after every change of the vertex set, the start cell included (C16.R2)
+    c16.r2(ctx, F, sfx, rule)
 
 
 def r4(ctx, F, rule, sfx):
@@ -172,34 +174,53 @@ def r4(ctx, F, rule, sfx):
     cv, _ = ip.call_body(hc, [ip.ref_to(hs), x])
     ctx.evaluations += ip.evaluations
     e = dot3(c3(n), c3(x)) - RF.sym('d')
-    # semantic table: tie (|e| < errb) -> 0, otherwise the sign of e; written with signum or with comparisons alike
+    # semantic table over the position of e = n.v - d relative to the window (-errb, errb): tie -> 0, otherwise the sign of e;
+    # written with abs / signum or with plain comparisons against +-errb alike.  Representative values: errb = 2, e in {-3,-1,0,1,3}.
     from .. import dtab
-    tie_leaf = I.b_cmp('<', nf.fn_abs(e), RF.sym('errb'))
     sg = I.single_atom(nf.fn_signum(e))
+    ab = I.single_atom(nf.fn_abs(e))
+    EB = RF.sym('errb')
     bad = []
-    shape_ok = True
-    for tie in (True, False):
-        for s_ in ((0,) if tie else ()) + (-1, 1):
-            def val(leaf, tie=tie, s_=s_):
-                if leaf == tie_leaf:
-                    return tie
-                if leaf == I.b_not(tie_leaf):
-                    return not tie
-                if leaf.op == 'cmp' and isinstance(leaf.args[1], RF) and isinstance(leaf.args[2], RF):
-                    d = leaf.args[1] - leaf.args[2]
-                    q = d / e
-                    if q.is_const() and q.const_value() != 0:
-                        sd = s_ * (1 if q.const_value() > 0 else -1)
-                        return {'<': sd < 0, '<=': sd <= 0, '==': sd == 0, '!=': sd != 0}[leaf.args[0]]
+
+    def leaf_value(leaf, ev):
+        """truth of a comparison leaf when e == ev and errb == 2"""
+        if leaf.op != 'cmp' or not (isinstance(leaf.args[1], RF) and isinstance(leaf.args[2], RF)):
+            raise AnalysisIncomplete('clip() depends on a condition outside its model: %r' % (leaf,))
+        dd = leaf.args[1] - leaf.args[2]
+        # dd == alpha*e + beta*errb + gamma*|e| (+ delta*signum(e)) with constant coefficients
+        beta = gamma = delta = Fraction(0)
+        rest = dd
+        for atom, which in ((I.single_atom(EB), 'b'), (ab, 'g'), (sg, 'd')):
+            if atom is None:
+                continue
+            cl = rest.coeff_linear(atom) if rest.is_poly() else None
+            if cl is None:
+                continue
+            co, rs = cl
+            if not co.is_const():
                 raise AnalysisIncomplete('clip() depends on a condition outside its model: %r' % (leaf,))
-            r = dtab.evaluate(as_rf(cv) if not isinstance(cv, I.Ite) else cv, val)
-            r = as_rf(r)
-            if sg is not None:
-                r = I.subst(r, {sg: RF.const(s_)})
-            want = 0 if tie else s_
-            if not (r.is_const() and r.const_value() == want):
-                bad.append((tie, s_, repr(r)))
-    ctx.check(rule, 'clip-value' + sfx, not bad, 'mismatching cases (tie, sign of n.v-d, value): %s' % (bad[:3] or 'none'), '0 when |n.v-d| < errb else the sign of n.v-d', where(hc), key_extra='clip')
+            if which == 'b':
+                beta = co.const_value()
+            elif which == 'g':
+                gamma = co.const_value()
+            else:
+                delta = co.const_value()
+            rest = rs
+        q = rest / e if not rest.is_zero() else RF.const(0)
+        if not q.is_const():
+            raise AnalysisIncomplete('clip() depends on a condition outside its model: %r' % (leaf,))
+        val_ = q.const_value() * ev + beta * 2 + gamma * abs(ev) + delta * ((ev > 0) - (ev < 0))
+        return {'<': val_ < 0, '<=': val_ <= 0, '==': val_ == 0, '!=': val_ != 0, '>': val_ > 0, '>=': val_ >= 0}[leaf.args[0]]
+    for ev in (-3, -1, 0, 1, 3):
+        r = dtab.evaluate(as_rf(cv) if not isinstance(cv, I.Ite) else cv, lambda leaf, ev=ev: leaf_value(leaf, ev))
+        r = as_rf(r)
+        s_ = (ev > 0) - (ev < 0)
+        if sg is not None:
+            r = I.subst(r, {sg: RF.const(s_)})
+        want = 0 if abs(ev) < 2 else s_
+        if not (r.is_const() and r.const_value() == want):
+            bad.append(('e = %+d*errb/2' % ev, 'value %s' % repr(r)[:30], 'want %d' % want))
+    ctx.check(rule, 'clip-value' + sfx, not bad, 'mismatching cases (position of n.v-d, value): %s' % (bad[:3] or 'none'), '0 when |n.v-d| < errb else the sign of n.v-d', where(hc), key_extra='clip')
     # removal condition in the clip routine
     sc = scen.build_scenario(F)
     cb = F.body(sc.clip_path)
@@ -318,6 +339,7 @@ def r6(ctx, F, rule, sfx):
     integrals_start_from_zero(ctx, F, rule, sfx, 'voronoi::integrals::CellIntegral')
     # what users read: the cell accessors return the stored values
     accessor_consistency(ctx, F, rule, sfx, 'voronoi_cell::VoronoiCell', ['volume', 'centroid', 'loc'])
+    cell_record_constructor(ctx, F, rule, sfx)
     n = 0
     for imp in F.impls_of_trait('voronoi::integrals::CellIntegral'):
         st = imp['self']
